@@ -326,4 +326,4 @@ where
 
 #[cfg(kani)]
 #[path = "/verif/harness/may/cqueue.rs"]
-mod verif_kani;
+pub(crate) mod verif_kani;
